@@ -305,7 +305,9 @@ func VerifC18_Seq(up, i1, i2 int) {
 	verifAssert(len(b) == total, "seq: encoded length == sum of the command sizes")
 	var got Commands
 	err = got.UnmarshalBinary(up != 0, verifCopy(b))
-	verifAssert(err == nil, "seq: concatenated commands decode without error")
+	// recorded finding: DevVersionReq (downlink CID 0x01, no payload bytes) followed by another command
+	devVersionReqFirst := up == 0 && i1 >= 0 && i1%100 == 1 && i2 >= 0
+	verifAssertKnown("C18-devversionreq-exact-length", devVersionReqFirst, err == nil, "seq: concatenated commands decode without error")
 	if err != nil {
 		verifReach("decode-error")
 		return
